@@ -259,10 +259,10 @@ fn format_attribute(
     if let Some((last, main)) = attr.arguments.split_last() {
         output.push('(');
         for expr in main {
-            format_expression(expr, output, context)?;
+            format_expression_in_list(expr, output, context)?;
             output.push_str(", ");
         }
-        format_expression(last, output, context)?;
+        format_expression_in_list(last, output, context)?;
         output.push(')');
     }
 
@@ -293,7 +293,7 @@ fn format_function_param(
 
     if let Some(default_expr) = &param.default_expr {
         output.push_str(" = ");
-        format_expression(default_expr, output, context)?;
+        format_expression_in_list(default_expr, output, context)?;
     }
 
     Ok(())
@@ -555,7 +555,7 @@ fn format_declarator(
 
             output.push('[');
             if let Some(expr) = array_size {
-                format_expression(expr, output, context)?;
+                format_expression_in_list(expr, output, context)?;
             }
             output.push(']');
             format_attributes(attributes, false, false, output, context)?;
@@ -877,6 +877,17 @@ fn format_expression(
     context: &mut FormatContext,
 ) -> Result<(), FormatError> {
     format_subexpression(expr, u32::MAX, OperatorSide::Middle, output, context)
+}
+
+/// Format an expression that is an element of a comma separated list or is followed by one
+///
+/// A comma operator at the top of the expression would otherwise start the next element
+fn format_expression_in_list(
+    expr: &ast::Expression,
+    output: &mut String,
+    context: &mut FormatContext,
+) -> Result<(), FormatError> {
+    format_subexpression(expr, 17, OperatorSide::CommaList, output, context)
 }
 
 enum OperatorSide {
@@ -1223,13 +1234,29 @@ fn format_template_type_args(
     if let Some((ta_last, ta_main)) = template_args.split_last() {
         output.push('<');
         for ta in ta_main {
-            format_expression_or_type(ta, output, context)?;
+            format_template_arg(ta, output, context)?;
             output.push_str(", ");
         }
-        format_expression_or_type(ta_last, output, context)?;
+        format_template_arg(ta_last, output, context)?;
         output.push('>');
     }
     Ok(())
+}
+
+/// Format a single template argument
+fn format_template_arg(
+    value: &ast::ExpressionOrType,
+    output: &mut String,
+    context: &mut FormatContext,
+) -> Result<(), FormatError> {
+    match value {
+        ast::ExpressionOrType::Expression(expr) | ast::ExpressionOrType::Either(expr, _) => {
+            // A comma would start the next argument and a > or >> would end the argument list
+            // Every operator from the shifts down is given parentheses
+            format_subexpression(expr, 6, OperatorSide::Middle, output, context)
+        }
+        ast::ExpressionOrType::Type(ty) => format_type_id(ty, output, context),
+    }
 }
 
 /// Format a struct
@@ -1290,7 +1317,7 @@ fn format_enum(
 
         if let Some(expr) = &value.value {
             output.push_str(" = ");
-            format_expression(expr, output, context)?;
+            format_expression_in_list(expr, output, context)?;
         }
 
         output.push(',');
